@@ -46,6 +46,16 @@ func CompareVals(a []Value, b []Value) int {
 			// b is a proper prefix of a
 			return 1
 		}
+		if v == nil || b[i] == nil {
+			// a value that is not there comes first
+			if v == nil && b[i] != nil {
+				return -1
+			}
+			if v != nil {
+				return 1
+			}
+			continue
+		}
 		if fa, fb := v.Format(), b[i].Format(); fa != fb {
 			// members of a union: values of different types are ordered by type
 			if fa < fb {
